@@ -97,20 +97,22 @@ TotalOrderOn(V) ==
               /\ (ValueCmp(a, c) = 0 => ValueCmp(a, b) = 0 /\ ValueCmp(b, c) = 0)
 
 (* ---------------------------------------------------------------- contracts of batch events *)
-IsMatrix(pool, m) == Len(m) = Len(pool) /\ \A i \in 1..Len(m) : Len(m[i]) = Len(pool)
-DecimalMatrixOK(pool, m) ==
-    IsMatrix(pool, m) /\ \A i \in 1..Len(pool) : \A j \in 1..Len(pool) : DecimalAnswerOK(pool[i], pool[j], m[i][j])
-RealMatrixOK(pool, m) ==
-    IsMatrix(pool, m) /\ \A i \in 1..Len(pool) : \A j \in 1..Len(pool) : RealAnswerOK(pool[i], pool[j], m[i][j])
-(* *_with_sign(a, a_neg, b, b_neg): pool entries are records [b |-> body, neg |-> flag]; bodies are  *)
+(* m[i][j] = what the function returned for (a[i], b[j]); 2 encodes None *)
+IsMatrix(a, b, m) == Len(m) = Len(a) /\ \A i \in 1..Len(m) : Len(m[i]) = Len(b)
+DecimalMatrixOK(a, b, m) ==
+    IsMatrix(a, b, m) /\ \A i \in 1..Len(a) : \A j \in 1..Len(b) : DecimalAnswerOK(a[i], b[j], m[i][j])
+RealMatrixOK(a, b, m) ==
+    IsMatrix(a, b, m) /\ \A i \in 1..Len(a) : \A j \in 1..Len(b) : RealAnswerOK(a[i], b[j], m[i][j])
+(* *_with_sign(x, x_neg, y, y_neg): pool entries are records [b |-> body, neg |-> flag]; bodies are  *)
 (* valid by construction ("digits only, no sign"); the function cannot refuse                        *)
-SignedMatrixOK(pool, m, real) ==
-    /\ IsMatrix(pool, m)
-    /\ \A i \in 1..Len(pool) : IF real THEN ValidRealBody(pool[i].b) ELSE ValidDecimalBody(pool[i].b)
-    /\ \A i \in 1..Len(pool) : \A j \in 1..Len(pool) :
-          m[i][j] = SignedCmp(pool[i].b, pool[i].neg, pool[j].b, pool[j].neg)
-(* redundantly, on the logged matrix alone: restricted to the rows/columns that were accepted       *)
-(* (answer # 2 on the diagonal) the matrix is a total preorder                                      *)
+SignedMatrixOK(a, b, m, real) ==
+    /\ IsMatrix(a, b, m)
+    /\ \A i \in 1..Len(a) : IF real THEN ValidRealBody(a[i].b) ELSE ValidDecimalBody(a[i].b)
+    /\ \A j \in 1..Len(b) : IF real THEN ValidRealBody(b[j].b) ELSE ValidDecimalBody(b[j].b)
+    /\ \A i \in 1..Len(a) : \A j \in 1..Len(b) :
+          m[i][j] = SignedCmp(a[i].b, a[i].neg, b[j].b, b[j].neg)
+(* redundantly, on a logged SQUARE matrix alone: restricted to the rows/columns that were accepted   *)
+(* (answer # 2 on the diagonal) the matrix is a total preorder                                       *)
 MatrixOrderLaws(m) ==
     LET n == Len(m)
         V == { i \in 1..n : m[i][i] # 2 }
